@@ -442,6 +442,30 @@ func rulePersistRestoreAgree(c *Ctx, rule string) {
 			}
 		})
 	}
+	// each persisted field is written on every path to a successful return of assign
+	{
+		ei := errResultIndex(assign)
+		okAll, nW := true, 0
+		allInstrs(assign, func(in ssa.Instruction) {
+			st, ok := in.(*ssa.Store)
+			if !ok {
+				return
+			}
+			_, p := fieldPath(st.Addr)
+			if len(p) != 2 || p[0] != "Spec" {
+				return
+			}
+			nW++
+			for _, ret := range returns(assign) {
+				if k, isC := retVal(ret, ei).(*ssa.Const); isC && k.IsNil() {
+					if !precedes(assign, []ssa.Instruction{st}, ret) {
+						okAll = false
+					}
+				}
+			}
+		})
+		c.ob(rule, assign, "every persisted field is written on every successful path of assign", nil, okAll && nW >= 4, fmt.Sprintf("%d stores to Spec.*; each precedes every `return nil` (an update must overwrite a stale attribute even with empty values)", nW))
+	}
 	ws, rs := keys(written), keys(read)
 	c.ob(rule, cfg, "FloatingIPSpec fields written by assign = fields read by ConfigurePool", nil, len(ws) > 0 && strings.Join(ws, ",") == strings.Join(rs, ","),
 		"written {"+strings.Join(ws, ",")+"} restored {"+strings.Join(rs, ",")+"}")
@@ -1028,4 +1052,134 @@ func unspillAddrOfParam(v ssa.Value, p *ssa.Parameter) bool {
 		}
 	}
 	return false
+}
+
+// C05.R11 — the object written to the store and the in-memory update carry the same key, attributes and time, and the
+// clone handed to the store is not modified after it was taken.
+func ruleCloneMatchesAssign(c *Ctx, rule string) {
+	n := 0
+	for _, fn := range ipamMethods(c) {
+		ups := calls(fn, "(*crdIpam).updateFloatingIP")
+		asg := calls(fn, "(*FloatingIP).Assign")
+		if len(ups) == 0 || len(asg) == 0 {
+			continue
+		}
+		for _, u := range ups {
+			cw, _ := callOf(callArgs(u)[0])
+			if cw == nil || !nameMatch(calleeName(cw), "(*FloatingIP).CloneWith") {
+				c.ob(rule, fn, "store update is given a clone of the entry", u, false, "updateFloatingIP's argument is not a direct CloneWith result (a clone modified or built elsewhere cannot be compared with the in-memory update)")
+				continue
+			}
+			// the clone must not be written after cloning
+			modified := false
+			for _, ref := range *cw.Referrers() {
+				if fa, ok := ref.(*ssa.FieldAddr); ok {
+					for _, r2 := range *fa.Referrers() {
+						if st, ok := r2.(*ssa.Store); ok && st.Addr == ssa.Value(fa) {
+							modified = true
+						}
+					}
+				}
+			}
+			// the matching Assign: on the same receiver, reachable only after the update succeeded
+			for _, a := range asg {
+				if !sameAccessOrValue(a.Common().Args[0], cw.Call.Args[0]) && a.Common().Args[0] != cw.Call.Args[0] {
+					continue
+				}
+				if ok, dec := onlyAfterSuccess(fn, u, a); !ok || !dec {
+					continue
+				}
+				n++
+				same := true
+				for i := 1; i <= 3; i++ {
+					if !sameAccessOrValue(a.Common().Args[i], cw.Call.Args[i]) {
+						same = false
+					}
+				}
+				// no store into the attr cell between the clone and the Assign
+				between := c.reachAfter(cw, newCut().instr(a))
+				touched := false
+				if cell, ok := cw.Call.Args[2].(*ssa.Alloc); ok {
+					for in := range between.instrs {
+						if st, ok := in.(*ssa.Store); ok {
+							if b, _ := cellPath(st.Addr); b == ssa.Value(cell) {
+								touched = true
+							}
+						}
+					}
+				}
+				c.ob(rule, fn, "store clone and memory Assign carry the same key, attr and time", a, same && !modified && !touched,
+					fmt.Sprintf("CloneWith(k, a, t) / Assign(k, a, t) with identical operands=%v; clone modified after cloning=%v; attr cell written in between=%v", same, modified, touched))
+			}
+		}
+	}
+	if n == 0 {
+		c.undecided(rule, nil, "CloneWith/Assign pairs", nil, "no update-then-assign pair found in the mutators")
+	}
+}
+
+// exact-key queries compare keys for equality, prefix queries are issued only with pool prefixes.
+func ruleExactKeyQueries(c *Ctx, rule string) {
+	for _, name := range []string{"(*crdIpam).First", "(*crdIpam).ByKeyAndIPRanges", "(*crdIpam).ReserveIP", "(*crdIpam).Release", "(*crdIpam).ReleaseIPs", "(*crdIpam).UpdateAttr", "(*crdIpam).AllocateInSubnetWithKey"} {
+		fn := c.MustFn(rule, fipPkg, name)
+		if fn == nil {
+			continue
+		}
+		bad := 0
+		eq := 0
+		for _, f := range withAnon(fn) {
+			allInstrs(f, func(in ssa.Instruction) {
+				switch x := in.(type) {
+				case *ssa.Call:
+					n := calleeName(x)
+					if n == "strings.HasPrefix" || n == "strings.Contains" || n == "strings.HasSuffix" || n == "strings.EqualFold" {
+						for _, a := range x.Call.Args {
+							if pathEndsWith(a, "Key") {
+								bad++
+							}
+						}
+					}
+				case *ssa.BinOp:
+					if (x.Op == token.EQL || x.Op == token.NEQ) && (pathEndsWith(x.X, "Key") || pathEndsWith(x.Y, "Key")) {
+						eq++
+					}
+				}
+			})
+		}
+		c.ob(rule, fn, "owner key compared for equality", nil, bad == 0 && eq > 0, fmt.Sprintf("%d ==/!= comparisons of <entry>.Key, %d prefix/substring tests (a pod key may be a string prefix of another pod's key: web-1 / web-10)", eq, bad))
+	}
+	// ByPrefix callers
+	n := 0
+	for _, fn := range c.SrcFns {
+		if isGenerated(fn) {
+			continue
+		}
+		for _, call := range calls(fn, "IPAM).ByPrefix") {
+			n++
+			a := callArgs(call)[0]
+			ok := isResultOf(a, 0, "(*KeyObj).PoolPrefix")
+			if s, isC := constStringVal(a); isC && s == "" {
+				ok = true
+			}
+			if !ok {
+				if p, isP := unspill(a).(*ssa.Parameter); isP {
+					// a parameter: accepted for the list API's keyword / prefix query only
+					ok = fn.Pkg.Pkg.Path() == modPath+apiPkg && p.Name() == "keyword"
+				}
+				if ld, isLd := a.(*ssa.UnOp); isLd {
+					if _, isFV := ld.X.(*ssa.FreeVar); isFV {
+						ok = false
+					}
+				}
+				// a local that only ever holds PoolPrefix() results
+				if !ok && dependsOn(a, func(x ssa.Value) bool { return isResultOf(x, 0, "(*KeyObj).PoolPrefix") }) {
+					ok = true
+				}
+			}
+			c.ob(rule, fn, "prefix query issued with a pool/app prefix", call, ok, "IPAM.ByPrefix is called with \"\", a KeyObj.PoolPrefix() value or the list API's keyword — never with a pod key")
+		}
+	}
+	if n < 4 {
+		c.undecided(rule, nil, "ByPrefix callers", nil, fmt.Sprintf("expected at least 4 ByPrefix call sites, found %d", n))
+	}
 }
